@@ -338,6 +338,10 @@ func (s *Swarm) OnGossipUnicast(src mesh.PeerName, buf []byte) (err error) {
 
 	// Go through each message in the decoded frame
 	for i := range frame {
+		if len(frame[i].ID) < 20 {
+			continue // Malformed, the id must at least carry the contract
+		}
+
 		s.OnMessage(&frame[i])
 	}
 
